@@ -12,6 +12,14 @@
 //!   iter_raw                    borrowed; iteration order                         -> ok [p,..][..]..
 //!   iter_take <k>               first k shards of iter() then size_hint().0       -> ok <rest> [..]..
 //!   into_iter | into_iter_raw   consuming                                         -> ok [..]..
+//!   new_hint <be> <sw> <b> <m> <vt> <hint>   the constructors with `Some(hint)` expected keys   -> ok | panic
+//!   is_empty | temp_dir         SigStore::is_empty -> ok 0|1 ; SigStore::temp_dir -> ok some|none
+//!   into_iter_take <k>          first k shards of into_iter(), then size_hint().0; store gone  -> ok <rest> [..]..
+//!   svops <sw> <vt> <sigA> <valA> <sigB> <valB>   stateless: SigVal == / ^ / ^= and RadixKey::get_level
+//!                               -> ok <eq 0|1> <sigA^sigB>:<valA^valB> [level 0, .., level LEVELS-1 of A]
+//!   tosig <seed> <hex>          stateless: every `ToSig` impl whose key has exactly these bytes
+//!                               (String, &String, str, &str, &[T], primitives) gives the signature of
+//!                               `&[u8]`, for both signature widths                             -> ok 1 | ok 0
 //! Ops in the wrong stage reply `err stage` on both sides.  The naive oracle keeps the pushed
 //! list and recomputes everything with `sig[0] >> (64 - bits)`.
 use crate::common::*;
@@ -83,6 +91,23 @@ trait Dyn {
 
 struct M<S: SigT, V: ValT, St: SigStore<S, V>> {
     stage: Stage<St, St::ShardStore>,
+    /// on the concrete shard store: advance a borrowed iterator by `k`, return
+    /// (`size_hint().0`, `ExactSizeIterator::len()`)
+    xlen: fn(&mut St::ShardStore, usize) -> (usize, usize),
+}
+
+fn xlen_of<S: SigT, V: ValT, B: Send + Sync>(sh: &mut ShardStoreImpl<S, V, B>, k: usize) -> (usize, usize)
+where
+    ShardStoreImpl<S, V, B>: ShardStore<S, V>,
+    for<'a> <ShardStoreImpl<S, V, B> as ShardStore<S, V>>::ShardIterator<'a>: ExactSizeIterator,
+{
+    let mut it = sh.iter();
+    for _ in 0..k {
+        if it.next().is_none() {
+            break;
+        }
+    }
+    (it.size_hint().0, ExactSizeIterator::len(&it))
 }
 
 fn conv<S: SigT, V: ValT>(x: &SigVal<S, V>) -> P {
@@ -160,6 +185,18 @@ impl<S: SigT, V: ValT, St: SigStore<S, V>> Dyn for M<S, V, St> {
                 Stage::Sig(st) => format!("ok {}", st.max_shard_high_bits()),
                 _ => "err stage".into(),
             },
+            "is_empty" => match &self.stage {
+                Stage::Sig(st) => format!("ok {}", b01(st.is_empty())),
+                _ => "err stage".into(),
+            },
+            "temp_dir" => match &self.stage {
+                Stage::Sig(st) => match st.temp_dir() {
+                    Some(d) if d.path().is_dir() => "ok some".into(),
+                    Some(_) => "ok some-missing".into(),
+                    None => "ok none".into(),
+                },
+                _ => "err stage".into(),
+            },
             "shard" => {
                 let s: u32 = t[1].parse().unwrap();
                 if !matches!(self.stage, Stage::Sig(_)) {
@@ -196,6 +233,7 @@ impl<S: SigT, V: ValT, St: SigStore<S, V>> Dyn for M<S, V, St> {
             }
             "iter_take" => {
                 let k: usize = t[1].parse().unwrap();
+                let xlen = self.xlen;
                 let Stage::Shard(sh) = &mut self.stage else {
                     return "err stage".into();
                 };
@@ -207,6 +245,36 @@ impl<S: SigT, V: ValT, St: SigStore<S, V>> Dyn for M<S, V, St> {
                         .map(|a| a.iter().map(conv).collect::<Vec<P>>())
                         .collect::<Vec<_>>();
                     let rest = it.size_hint().0;
+                    assert_eq!(it.size_hint(), (rest, Some(rest)));
+                    drop(it);
+                    // `ExactSizeIterator::len`: the associated types of the trait `ShardStore` are
+                    // only bounded by `Iterator`, so the method exists on the concrete iterator only
+                    let (h, l) = xlen(sh, k);
+                    assert_eq!((h, l), (rest, rest), "ExactSizeIterator::len of the borrowed iterator");
+                    (rest, v)
+                }) {
+                    None => "panic".into(),
+                    Some((rest, v)) => format!("ok {} {}", rest, fmt_shards(&v, true)),
+                }
+            }
+            "into_iter_take" => {
+                // a consuming iteration abandoned after k shards (the rest is dropped unread)
+                let k: usize = t[1].parse().unwrap();
+                if !matches!(self.stage, Stage::Shard(_)) {
+                    return "err stage".into();
+                }
+                let Stage::Shard(sh) = std::mem::replace(&mut self.stage, Stage::Dead) else {
+                    unreachable!()
+                };
+                match catch(move || {
+                    let mut it = ShardStore::into_iter(sh);
+                    let v = it
+                        .by_ref()
+                        .take(k)
+                        .map(|a| a.iter().map(conv).collect::<Vec<P>>())
+                        .collect::<Vec<_>>();
+                    let rest = it.size_hint().0;
+                    assert_eq!(it.size_hint(), (rest, Some(rest)));
                     (rest, v)
                 }) {
                     None => "panic".into(),
@@ -234,39 +302,171 @@ impl<S: SigT, V: ValT, St: SigStore<S, V>> Dyn for M<S, V, St> {
     }
 }
 
-fn mk_online<S: SigT, V: ValT>(b: u32, m: u32) -> Option<Box<dyn Dyn>> {
-    match catch(|| new_online::<S, V>(b, m, None)) {
+fn mk_online<S: SigT, V: ValT>(b: u32, m: u32, hint: Option<usize>) -> Option<Box<dyn Dyn>> {
+    match catch(|| new_online::<S, V>(b, m, hint)) {
         Some(Ok(st)) => Some(Box::new(M::<S, V, _> {
             stage: Stage::Sig(st),
+            xlen: xlen_of::<S, V, std::sync::Arc<Vec<SigVal<S, V>>>>,
         })),
         _ => None,
     }
 }
 
-fn mk_offline<S: SigT, V: ValT>(b: u32, m: u32) -> Option<Box<dyn Dyn>> {
-    match catch(|| new_offline::<S, V>(b, m, None)) {
+fn mk_offline<S: SigT, V: ValT>(b: u32, m: u32, hint: Option<usize>) -> Option<Box<dyn Dyn>> {
+    match catch(|| new_offline::<S, V>(b, m, hint)) {
         Some(Ok(st)) => Some(Box::new(M::<S, V, _> {
             stage: Stage::Sig(st),
+            xlen: xlen_of::<S, V, std::io::BufReader<std::fs::File>>,
         })),
         _ => None,
     }
 }
 
-fn mk(be: &str, sw: u32, b: u32, m: u32, vt: &str) -> Option<Box<dyn Dyn>> {
+fn mk(be: &str, sw: u32, b: u32, m: u32, vt: &str, hint: Option<usize>) -> Option<Box<dyn Dyn>> {
     match (be, sw, vt) {
-        ("online", 1, "u8") => mk_online::<[u64; 1], u8>(b, m),
-        ("online", 1, "u64") => mk_online::<[u64; 1], u64>(b, m),
-        ("online", 1, "unit") => mk_online::<[u64; 1], EmptyVal>(b, m),
-        ("online", 2, "u8") => mk_online::<[u64; 2], u8>(b, m),
-        ("online", 2, "u64") => mk_online::<[u64; 2], u64>(b, m),
-        ("online", 2, "unit") => mk_online::<[u64; 2], EmptyVal>(b, m),
-        ("offline", 1, "u8") => mk_offline::<[u64; 1], u8>(b, m),
-        ("offline", 1, "u64") => mk_offline::<[u64; 1], u64>(b, m),
-        ("offline", 1, "unit") => mk_offline::<[u64; 1], EmptyVal>(b, m),
-        ("offline", 2, "u8") => mk_offline::<[u64; 2], u8>(b, m),
-        ("offline", 2, "u64") => mk_offline::<[u64; 2], u64>(b, m),
-        ("offline", 2, "unit") => mk_offline::<[u64; 2], EmptyVal>(b, m),
+        ("online", 1, "u8") => mk_online::<[u64; 1], u8>(b, m, hint),
+        ("online", 1, "u64") => mk_online::<[u64; 1], u64>(b, m, hint),
+        ("online", 1, "unit") => mk_online::<[u64; 1], EmptyVal>(b, m, hint),
+        ("online", 2, "u8") => mk_online::<[u64; 2], u8>(b, m, hint),
+        ("online", 2, "u64") => mk_online::<[u64; 2], u64>(b, m, hint),
+        ("online", 2, "unit") => mk_online::<[u64; 2], EmptyVal>(b, m, hint),
+        ("offline", 1, "u8") => mk_offline::<[u64; 1], u8>(b, m, hint),
+        ("offline", 1, "u64") => mk_offline::<[u64; 1], u64>(b, m, hint),
+        ("offline", 1, "unit") => mk_offline::<[u64; 1], EmptyVal>(b, m, hint),
+        ("offline", 2, "u8") => mk_offline::<[u64; 2], u8>(b, m, hint),
+        ("offline", 2, "u64") => mk_offline::<[u64; 2], u64>(b, m, hint),
+        ("offline", 2, "unit") => mk_offline::<[u64; 2], EmptyVal>(b, m, hint),
         _ => panic!("bad new {} {} {}", be, sw, vt),
+    }
+}
+
+// ------------------------------------------------------------------ SigVal glue, ToSig (stateless)
+
+fn svops_t<S: SigT, V: ValT + std::ops::BitXor<Output = V> + std::ops::BitXorAssign>(
+    levels: usize,
+    a: P,
+    b: P,
+) -> Option<String>
+where
+    SigVal<S, V>: rdst::RadixKey
+        + PartialEq
+        + std::ops::BitXor<Output = SigVal<S, V>>
+        + std::ops::BitXorAssign,
+{
+    catch(|| {
+        let x = SigVal { sig: S::from128(a.0), val: V::from64(a.1) };
+        let y = SigVal { sig: S::from128(b.0), val: V::from64(b.1) };
+        let eq = x == y;
+        let z = x ^ y;
+        let mut w = x;
+        w ^= y;
+        assert!(conv(&z) == conv(&w), "BitXor and BitXorAssign differ");
+        assert_eq!(<SigVal<S, V> as rdst::RadixKey>::LEVELS, levels);
+        let lv: Vec<u8> = (0..levels).map(|l| rdst::RadixKey::get_level(&x, l)).collect();
+        let (zs, zv) = conv(&z);
+        format!("ok {} {}:{} {}", b01(eq), zs, zv, fmt_list(lv.iter()))
+    })
+}
+
+/// (oracle, implementation) replies of `svops <sw> <vt> <sigA> <valA> <sigB> <valB>`
+fn svops(t: &[&str]) -> (String, String) {
+    let sw: u32 = t[1].parse().unwrap();
+    let a: P = (t[3].parse().unwrap(), t[4].parse().unwrap());
+    let b: P = (t[5].parse().unwrap(), t[6].parse().unwrap());
+    let levels = 8 * sw as usize;
+    let got = match (sw, t[2]) {
+        (1, "u8") => svops_t::<[u64; 1], u8>(levels, a, b),
+        (1, "u64") => svops_t::<[u64; 1], u64>(levels, a, b),
+        (1, "unit") => svops_t::<[u64; 1], EmptyVal>(levels, a, b),
+        (2, "u8") => svops_t::<[u64; 2], u8>(levels, a, b),
+        (2, "u64") => svops_t::<[u64; 2], u64>(levels, a, b),
+        (2, "unit") => svops_t::<[u64; 2], EmptyVal>(levels, a, b),
+        _ => panic!("bad svops {:?}", t),
+    }
+    .unwrap_or_else(|| "panic".into());
+    // oracle: equality looks at the signature only; XOR component-wise; level l = byte l (least
+    // significant first) of the signature read as one number
+    let lv: Vec<u8> = (0..levels).map(|l| (a.0 >> (8 * l)) as u8).collect();
+    let exp = format!("ok {} {}:{} {}", b01(a.0 == b.0), a.0 ^ b.0, a.1 ^ b.1, fmt_list(lv.iter()));
+    (exp, got)
+}
+
+fn hex_arg(bs: &[u8]) -> String {
+    if bs.is_empty() {
+        return "-".into();
+    }
+    bs.iter().map(|b| format!("{:02x}", b)).collect()
+}
+
+fn unhex(s: &str) -> Vec<u8> {
+    if s == "-" {
+        return vec![];
+    }
+    let v = |c: u8| -> u8 {
+        match c {
+            b'0'..=b'9' => c - b'0',
+            b'a'..=b'f' => c - b'a' + 10,
+            _ => panic!("bad hex"),
+        }
+    };
+    s.as_bytes().chunks(2).map(|p| v(p[0]) * 16 + v(p[1])).collect()
+}
+
+/// every `ToSig` implementation whose key consists of exactly `bytes` must give the signature of
+/// the byte slice itself (all of them hash the key's bytes with xxh3); both signature widths
+fn tosig(ctx: &mut Ctx, t: &[&str]) -> (String, String) {
+    let seed: u64 = t[1].parse().unwrap();
+    let bytes = unhex(t[2]);
+    let got = catch(|| {
+        let r1: [u64; 1] = <&[u8] as ToSig<[u64; 1]>>::to_sig(&bytes[..], seed);
+        let r2: [u64; 2] = <&[u8] as ToSig<[u64; 2]>>::to_sig(&bytes[..], seed);
+        let mut forms = 0usize;
+        let mut bad: Vec<&'static str> = vec![];
+        macro_rules! chk {
+            ($name:expr, $T:ty, $key:expr) => {{
+                forms += 1;
+                let a: [u64; 1] = <$T as ToSig<[u64; 1]>>::to_sig($key, seed);
+                let b: [u64; 2] = <$T as ToSig<[u64; 2]>>::to_sig($key, seed);
+                if a != r1 || b != r2 {
+                    bad.push($name);
+                }
+            }};
+        }
+        if let Ok(st) = std::str::from_utf8(&bytes) {
+            let owned = st.to_string();
+            chk!("String", String, &owned);
+            chk!("String-by-value", String, owned.clone());
+            chk!("&String", &String, &owned);
+            chk!("str", str, st);
+            chk!("&str", &str, st);
+        }
+        macro_rules! prim {
+            ($($ty:ty),*) => {$(
+                const N: usize = std::mem::size_of::<$ty>();
+                if bytes.len() == N {
+                    let v = <$ty>::from_ne_bytes(bytes[..].try_into().unwrap());
+                    chk!(stringify!($ty), $ty, v);
+                }
+                if bytes.len() % N == 0 {
+                    let vs: Vec<$ty> = bytes.chunks(N).map(|c| <$ty>::from_ne_bytes(c.try_into().unwrap())).collect();
+                    chk!(concat!("&[", stringify!($ty), "]"), &[$ty], &vs[..]);
+                }
+            )*};
+        }
+        { prim!(u8); } { prim!(i8); } { prim!(u16); } { prim!(i16); } { prim!(u32); } { prim!(i32); }
+        { prim!(u64); } { prim!(i64); } { prim!(usize); } { prim!(isize); } { prim!(u128); } { prim!(i128); }
+        (forms, bad)
+    });
+    match got {
+        Some((forms, bad)) => {
+            ctx.stat(&format!("tosig:forms:{}", forms.min(40)));
+            if bad.is_empty() {
+                ("ok 1".into(), "ok 1".into())
+            } else {
+                ("ok 1".into(), format!("ok 0 {}", bad.join(",")))
+            }
+        }
+        None => ("ok 1".into(), "panic".into()),
     }
 }
 
@@ -282,6 +482,7 @@ enum OStage {
 
 struct Oracle {
     stage: OStage,
+    offline: bool,
     sw: u32,
     b: u32,
     m: u32,
@@ -317,11 +518,12 @@ impl Oracle {
 
     fn exec(&mut self, t: &[&str]) -> String {
         match t[0] {
-            "new" => {
+            "new" | "new_hint" => {
                 let (sw, b, m): (u32, u32, u32) =
                     (t[2].parse().unwrap(), t[3].parse().unwrap(), t[4].parse().unwrap());
                 *self = Oracle {
                     stage: OStage::None,
+                    offline: t[1] == "offline",
                     sw,
                     b,
                     m,
@@ -355,6 +557,14 @@ impl Oracle {
                 OStage::Sig => format!("ok {}", self.m),
                 _ => "err stage".into(),
             },
+            "is_empty" => match self.stage {
+                OStage::Sig => format!("ok {}", b01(self.pushed.is_empty())),
+                _ => "err stage".into(),
+            },
+            "temp_dir" => match self.stage {
+                OStage::Sig => format!("ok {}", if self.offline { "some" } else { "none" }),
+                _ => "err stage".into(),
+            },
             "shard" => {
                 if self.stage != OStage::Sig {
                     return "err stage".into();
@@ -385,8 +595,11 @@ impl Oracle {
                 }
                 _ => "err stage".into(),
             },
-            "iter_take" => match self.stage {
+            "iter_take" | "into_iter_take" => match self.stage {
                 OStage::Shard(s) => {
+                    if t[0] == "into_iter_take" {
+                        self.stage = OStage::Dead;
+                    }
                     let k: usize = t[1].parse().unwrap();
                     let all = self.shards(s, true);
                     let k = k.min(all.len());
@@ -409,6 +622,7 @@ fn fresh() -> S {
         m: None,
         o: Oracle {
             stage: OStage::None,
+            offline: false,
             sw: 1,
             b: 0,
             m: 0,
@@ -420,14 +634,22 @@ fn fresh() -> S {
 fn exec(ctx: &mut Ctx, s: &mut S, op: &str) {
     ctx.op(op);
     let t: Vec<&str> = op.split(' ').collect();
+    if t[0] == "svops" || t[0] == "tosig" {
+        // stateless
+        let (expected, got) = if t[0] == "svops" { svops(&t) } else { tosig(ctx, &t) };
+        ctx.check_oracle(&expected, &got);
+        ctx.reply(&got);
+        return;
+    }
     let expected = s.o.exec(&t);
-    let got = if t[0] == "new" {
+    let got = if t[0] == "new" || t[0] == "new_hint" {
         s.m = mk(
             t[1],
             t[2].parse().unwrap(),
             t[3].parse().unwrap(),
             t[4].parse().unwrap(),
             t[5],
+            if t[0] == "new_hint" { Some(t[6].parse().unwrap()) } else { None },
         );
         if s.m.is_some() {
             "ok".to_string()
@@ -604,13 +826,31 @@ fn size_class(n: usize) -> &'static str {
 fn full_case(ctx: &mut Ctx, c: &Cfg, ps: &[P], single: bool, tag: &str) {
     ctx.case();
     let mut s = fresh();
-    exec(
-        ctx,
-        &mut s,
-        &format!("new {} {} {} {} {}", c.be, c.sw, c.b, c.m, c.vt),
-    );
+    // the expected-number-of-keys argument of the constructors: absent, exact, 0, too small, too large
+    let hint = match ctx.rng.below(8) {
+        0 => Some(ps.len()),
+        1 => Some(0),
+        2 => Some(ps.len() / 3),
+        3 => Some(ps.len() * 7 + 1000),
+        _ => None,
+    };
+    match hint {
+        Some(h) => exec(
+            ctx,
+            &mut s,
+            &format!("new_hint {} {} {} {} {} {}", c.be, c.sw, c.b, c.m, c.vt, h),
+        ),
+        None => exec(
+            ctx,
+            &mut s,
+            &format!("new {} {} {} {} {}", c.be, c.sw, c.b, c.m, c.vt),
+        ),
+    }
+    exec(ctx, &mut s, "is_empty");
+    exec(ctx, &mut s, "temp_dir");
     push_all(ctx, &mut s, ps, single);
     exec(ctx, &mut s, "len");
+    exec(ctx, &mut s, "is_empty");
     exec(ctx, &mut s, "max_shard_high_bits");
     exec(ctx, &mut s, &format!("shard {}", c.s));
     exec(ctx, &mut s, "len");
@@ -626,10 +866,47 @@ fn full_case(ctx: &mut Ctx, c: &Cfg, ps: &[P], single: bool, tag: &str) {
     };
     exec(ctx, &mut s, &format!("iter_take {}", k));
     exec(ctx, &mut s, "iter");
-    if ctx.rng.chance(3, 4) {
-        exec(ctx, &mut s, "into_iter");
-    } else {
-        exec(ctx, &mut s, "into_iter_raw");
+    match ctx.rng.below(8) {
+        0..=3 => exec(ctx, &mut s, "into_iter"),
+        4 | 5 => exec(ctx, &mut s, "into_iter_raw"),
+        _ => {
+            // a consuming pass abandoned half-way; the store is gone afterwards
+            let k = match ctx.rng.below(3) {
+                0 => 0,
+                1 => ns + 1,
+                _ => ctx.rng.usize_below(ns + 1),
+            };
+            exec(ctx, &mut s, &format!("into_iter_take {}", k));
+            exec(ctx, &mut s, "len");
+        }
+    }
+    // stateless glue: SigVal equality / XOR / radix levels, and the ToSig implementations
+    if ctx.rng.chance(1, 3) {
+        let pick = |ctx: &mut Ctx| -> P {
+            if !ps.is_empty() && ctx.rng.chance(2, 3) {
+                ps[ctx.rng.usize_below(ps.len())]
+            } else {
+                let w = ((ctx.rng.word() as u128) << 64) | ctx.rng.word() as u128;
+                (if c.sw == 2 { w } else { w & u64::MAX as u128 }, match c.vt {
+                    "u8" => ctx.rng.below(256),
+                    "u64" => ctx.rng.word(),
+                    _ => 0,
+                })
+            }
+        };
+        let (a, b) = (pick(ctx), pick(ctx));
+        // same signature with another value: still equal
+        let b = if ctx.rng.chance(1, 4) { (a.0, b.1) } else { b };
+        exec(ctx, &mut s, &format!("svops {} {} {} {} {} {}", c.sw, c.vt, a.0, a.1, b.0, b.1));
+    }
+    if ctx.rng.chance(1, 4) {
+        let len = *ctx.rng.pick(&[0usize, 1, 2, 3, 4, 7, 8, 15, 16, 17, 32, 48, 129, 240, 241]);
+        let ascii = ctx.rng.bool();
+        let bytes: Vec<u8> = (0..len)
+            .map(|_| if ascii { b' ' + ctx.rng.below(95) as u8 } else { ctx.rng.next_u64() as u8 })
+            .collect();
+        let seed = ctx.rng.word();
+        exec(ctx, &mut s, &format!("tosig {} {}", seed, hex_arg(&bytes)));
     }
     ctx.stat(&format!("branch:{}", rel(c)));
     ctx.stat(&format!("backend:{}", c.be));
@@ -743,6 +1020,61 @@ fn directed(ctx: &mut Ctx) {
     exec(ctx, &mut s, "new offline 2 32 1 unit");
     exec(ctx, &mut s, "new offline 2 63 1 unit");
     exec(ctx, &mut s, "len");
+    // stateless glue: every (sw, vt), equal signatures with different values, extremes
+    ctx.case();
+    let mut s = fresh();
+    let big: u128 = u128::MAX;
+    for sw in [1u32, 2] {
+        let m: u128 = if sw == 2 { big } else { u64::MAX as u128 };
+        for vt in VTS {
+            let vm: u64 = match *vt {
+                "u8" => 255,
+                "u64" => u64::MAX,
+                _ => 0,
+            };
+            for (a, b) in [
+                ((0u128, 0u64), (0u128, 0u64)),
+                ((m, vm), (m, 0)),
+                ((m, vm), (0, vm)),
+                ((0x0102030405060708090a0b0c0d0e0f10 & m, vm / 3), (0xf0e0d0c0b0a090807060504030201000 & m, vm / 5)),
+                ((1u128 << 63, 1 & vm), (1u128 << 64 & m, 1 & vm)),
+            ] {
+                exec(ctx, &mut s, &format!("svops {} {} {} {} {} {}", sw, vt, a.0, a.1, b.0, b.1));
+            }
+        }
+    }
+    for bytes in [
+        &b""[..], b"a", b"ab", b"abcd", b"abcdefgh", b"0123456789abcdef", b"\xff", b"\xff\xfe", b"\x80\x00\x00\x00",
+        b"\x00\x00\x00\x00\x00\x00\x00\x80", b"\xff\xff\xff\xff\xff\xff\xff\xff\xff\xff\xff\xff\xff\xff\xff\xff",
+        "h\u{e9}llo \u{20ac}".as_bytes(), &[b'x'; 130][..], &[b'y'; 241][..],
+    ] {
+        for seed in [0u64, 1, u64::MAX] {
+            exec(ctx, &mut s, &format!("tosig {} {}", seed, hex_arg(bytes)));
+        }
+    }
+    ctx.shape("directed-glue".into());
+    // constructors with an expected number of keys (pre-allocation of the online store)
+    for &be in BES {
+        for (h, n) in [(0usize, 0usize), (0, 5), (5, 5), (1, 40), (100_000, 3), (7, 7)] {
+            ctx.case();
+            let mut s = fresh();
+            exec(ctx, &mut s, &format!("new_hint {} 2 2 3 u64 {}", be, h));
+            exec(ctx, &mut s, "is_empty");
+            exec(ctx, &mut s, "temp_dir");
+            let ps: Vec<P> = (0..n).map(|i| (((i as u128) << 125) | i as u128, i as u64)).collect();
+            push_all(ctx, &mut s, &ps, false);
+            exec(ctx, &mut s, "is_empty");
+            exec(ctx, &mut s, "shard 3");
+            exec(ctx, &mut s, "is_empty");
+            exec(ctx, &mut s, "temp_dir");
+            exec(ctx, &mut s, "shard_sizes");
+            exec(ctx, &mut s, "iter_take 3");
+            exec(ctx, &mut s, "into_iter_take 5");
+            exec(ctx, &mut s, "into_iter_take 1");
+            exec(ctx, &mut s, "iter");
+            ctx.shape(format!("directed-hint:{}", be));
+        }
+    }
     // wrong-stage ops
     ctx.case();
     let mut s = fresh();
